@@ -31,13 +31,23 @@ Fixpoint has_kind (k : value -> bool) (v : value) : bool :=
 Definition is_double (v : value) : bool := match v with VDouble _ => true | _ => false end.
 Definition is_decimal (v : value) : bool := match v with VDecimal _ _ => true | _ => false end.
 
+(* a NaN / infinite argument never reaches decimal.NewFromFloat *)
+Definition non_finite_number (v : value) : bool :=
+  match v with
+  | VDouble b => is_nan_bits b || is_inf_bits b
+  | VDecimal h l => match dec_decode h l with DFin _ _ => false | _ => true end
+  | _ => false
+  end.
+
 Definition mixed_arith (d u : doc) : bool :=
   let dbl := has_kind is_double (VDoc d) || has_kind is_double (VDoc u) in
   let dcm := has_kind is_decimal (VDoc d) || has_kind is_decimal (VDoc u) in
   existsb (fun kv =>
              (String.eqb (fst kv) "$inc" || String.eqb (fst kv) "$mul") &&
              match snd kv with
-             | VDoc pairs => existsb (fun p => (is_decimal (snd p) && dbl) || (is_double (snd p) && dcm)) pairs
+             | VDoc pairs =>
+                 existsb (fun p => negb (non_finite_number (snd p)) &&
+                                   ((is_decimal (snd p) && dbl) || (is_double (snd p) && dcm))) pairs
              | _ => false
              end) u.
 
